@@ -803,9 +803,27 @@ class Sandbox:
         """
         try:
             parsed = ast.literal_eval(literal)
-            return type(parsed) is type(value) and bool(parsed == value)
+            return (type(parsed) is type(value) and bool(parsed == value)
+                    and Sandbox._is_plain_data(value))
         except Exception:
             return False
+
+    @staticmethod
+    def _is_plain_data(value):
+        """
+        Determines whether `value` is made of the builtin literal types only, all
+        the way down. An instance of a subclass of a builtin type (``class
+        Score(int)``) prints like the builtin and compares equal to it, so a
+        container holding one looks like a faithful literal although its text
+        evaluates to a container of plain builtins.
+        """
+        kind = type(value)
+        if kind in (list, tuple, set, frozenset):
+            return all(map(Sandbox._is_plain_data, value))
+        if kind is dict:
+            return all(Sandbox._is_plain_data(key) and Sandbox._is_plain_data(item)
+                       for key, item in value.items())
+        return kind in (int, float, complex, str, bytes, bool, type(None), type(Ellipsis))
 
     def make_safe_variable(self, name):
         """
